@@ -63,6 +63,9 @@ func hasIndexableTerm(x interface{}) bool {
 
 func genFact(g *gen.Gen) map[string]interface{} {
 	f := g.Map(1 + g.Intn(2))
+	if g.Intn(30) == 0 {
+		return map[string]interface{}{} // a fact without any content (a marker): nothing to index, still a fact
+	}
 	switch g.Intn(14) {
 	case 0:
 		f["k!"] = g.Scalar()
@@ -92,6 +95,7 @@ func main() {
 		g := gen.New(e.BatchSeed()*104729 + int64(h))
 		g.Lookalikes = h%2 == 1
 		g.LongStrings = true
+		g.Escapes = h%3 == 2 // strings with characters that JSON text escapes (quotes, backslash, <, &, control characters)
 		locs := map[string]*core.Location{}
 		for _, k := range drv.Kinds {
 			l, err := drv.NewLoc("L", k, drv.MustMem())
